@@ -647,7 +647,7 @@ func vIdentServer(c *vCase) {
 		}
 		// the STATUS message clients receive
 		var last *ServerStatus
-		for i := 0; i < 300 && last == nil; i++ {
+		for i := 0; i < 3000 && last == nil; i++ {
 			for _, u := range vClientSnapshot() {
 				if u.tag == "STATUS" {
 					if st, ok := u.state.(ServerStatus); ok && st.Running {
